@@ -124,6 +124,7 @@ TABLE = {
         "drivers": [
             {"driver": "faults", "required_clauses": ["failed-insert", "failed-registration-call", "dispatch-end", "scripted-callback"]},
             {"driver": "postaction", "required_clauses": ["post-action"]},
+            {"driver": "epoll", "required_clauses": ["duplicate-fd", "epoll-table"]},
         ],
     },
     "C16": {
